@@ -4,7 +4,8 @@
 
    Vocabulary (C19/Framenum.v, C19/FramenumProofs.v):
      framenum_cur fuel v spf fo nf value fs fe
-         the model of gd_framenum_subset64 AS THE CODE IS NOW (cur_fxp/cur_fxs);
+         the model of gd_framenum_subset64 AS THE CODE IS NOW (cur_fxp = cur_fxs = true:
+         index.c with the fixes C19-1 and C19-2);
          v : Z -> option Q is the field as _GD_DoField returns it in FLOAT64,
          fo = frame offset, nf = gd_nframes, fs/fe = the caller's limits
      s_of spf fo fs, e_of spf nf fe   the searched sample range [s, e)
@@ -14,7 +15,7 @@
      interp f q   linear interpolation of f at fractional sample q
      framenum true true ...   the code after proposed_fixes/C19-1.diff + C19-2.diff *)
 From Coq Require Import ZArith QArith Qround.
-From GD Require Import C19.Framenum C19.FramenumProofs C19.FramenumTop.
+From GD Require Import C19.Framenum C19.FramenumProofs C19.FramenumTop C19.Shape Gen.FramenumShape.
 Local Open Scope Z_scope.
 
 (* limits: 0 selects the frame offset / gd_nframes; both are scaled by spf *)
@@ -74,36 +75,17 @@ Definition terminates_statement (fxp fxs : bool) : Prop :=
     0 < spf -> field_ok v f d (s_of spf fo fs) (e_of spf nf fe) lim ->
     exists fuel, framenum fxp fxs fuel v spf fo nf value fs fe <> OutOfFuel.
 
-(* refuted on the code as it is: samples 10,20,..,80; (A) spf 2, default
-   limits, value 80 (= last sample); (B) spf 4, default limits, value 85 *)
-Theorem terminates_refuted :
-  exists v f d spf fo nf value fs fe lim,
-    0 < spf /\ field_ok v f d (s_of spf fo fs) (e_of spf nf fe) lim /\
-    forall fuel, framenum_cur fuel v spf fo nf value fs fe = OutOfFuel.
-Proof.
-  exists wit_v, wit_f, false, 2, 0, 4, (80#1)%Q, 0, 0, 8.
-  split; [reflexivity|]. split; [apply (wit_field_ok 9); discriminate|exact wit_hang_exact].
-Qed.
-
-Theorem terminates_refuted_beyond :
-  exists v f d spf fo nf value fs fe lim,
-    0 < spf /\ field_ok v f d (s_of spf fo fs) (e_of spf nf fe) lim /\
-    forall fuel, framenum_cur fuel v spf fo nf value fs fe = OutOfFuel.
-Proof.
-  exists wit_v, wit_f, false, 4, 0, 2, (85#1)%Q, 0, 0, 8.
-  split; [reflexivity|]. split; [apply (wit_field_ok 11); discriminate|exact wit_hang_beyond].
-Qed.
-
-(* what does hold for the code as it is: it finishes when the last sample of
-   the range exists (lim = e), and otherwise when the value is not beyond the
-   last sample and not equal to any sample but the first *)
-Theorem terminates_partial : forall fuel v f d spf fo nf value fs fe lim,
-  let s := s_of spf fo fs in let e := e_of spf nf fe in
-  field_ok v f d s e lim ->
-  (lim = e \/ (~ lt_d d (f (lim - 1)) value /\ forall k, s < k < lim -> ~ (value == f k)%Q)) ->
-  (Z.to_nat (e - s) < fuel)%nat ->
+(* holds since the fix of index.c (C19-1): every call finishes, on every array *)
+Theorem terminates : forall fuel v spf fo nf value fs fe,
+  0 <= s_of spf fo fs -> (Z.to_nat (e_of spf nf fe - s_of spf fo fs) < fuel)%nat ->
   framenum_cur fuel v spf fo nf value fs fe <> OutOfFuel.
-Proof. exact (frame_pinned_terminates cur_fxs). Qed.
+Proof. exact (frame_fixed_terminates cur_fxs). Qed.
+
+(* the two calls that never returned before the fix *)
+Theorem former_hang_exact : framenum_cur 20 wit_v 2 0 4 (80#1) 0 0 = Ok (7 / 2)%Q.
+Proof. exact wit_fixed_exact. Qed.
+Theorem former_hang_beyond : exists q, framenum_cur 20 wit_v 4 0 2 (85#1) 0 0 = Ok q /\ (q == 15 # 8)%Q.
+Proof. exact wit_fixed_beyond. Qed.
 
 (* after proposed_fixes/C19-1.diff: finishes on every array, monotone or not *)
 Theorem terminates_after_fix : forall fxs fuel v spf fo nf value fs fe,
@@ -123,17 +105,7 @@ Definition degenerate_statement (fxp fxs : bool) : Prop :=
     (Z.to_nat (e - s) < fuel)%nat ->
     let r := framenum fxp fxs fuel v spf fo nf value fs fe in r = EDomain \/ r = ERange.
 
-(* refuted on the code as it is: eight samples all equal to 5, spf 2, default
-   limits (end of field not known in advance), value 7: +inf and no error *)
-Theorem degenerate_refuted :
-  exists l, (forall x, List.In x l -> (x == 5#1)%Q) /\
-    framenum_cur 20 (arr_of l) 2 0 4 (7#1) 0 0 = NonFinite.
-Proof.
-  exists const_l. split; [|exact const_answered].
-  intros x H. simpl in H. intuition (subst; reflexivity).
-Qed.
-
-(* what does hold: empty range, no data at the start, constant with known end *)
+(* empty range, no data at the start, constant with known end *)
 Theorem degenerate_partial_empty : forall fuel v spf fo nf value fs fe,
   e_of spf nf fe - s_of spf fo fs < 2 -> framenum_cur fuel v spf fo nf value fs fe = EDomain.
 Proof. exact (frame_empty cur_fxp cur_fxs). Qed.
@@ -147,18 +119,37 @@ Theorem degenerate_partial_known_end : forall fuel v spf fo nf value fs fe a b,
   let r := framenum_cur fuel v spf fo nf value fs fe in r = EDomain \/ r = ERange.
 Proof. exact (frame_const_known cur_fxp cur_fxs). Qed.
 
-(* after C19-1 + C19-2: constant range whose end is not known in advance *)
-Theorem degenerate_after_fix : forall fuel v cst spf fo nf value fs fe lim,
+(* constant range whose end is not known in advance (holds since the fixes C19-1 + C19-2) *)
+Theorem degenerate_unknown_end : forall fuel v cst spf fo nf value fs fe lim,
   let s := s_of spf fo fs in let e := e_of spf nf fe in
   0 <= s < lim -> lim < e ->
   (forall i x, s <= i < lim -> v i = Some x -> (x == cst)%Q) ->
   (forall i, s <= i < lim -> v i <> None) -> (forall i, lim <= i < e -> v i = None) ->
   (Z.to_nat (e - s) < fuel)%nat ->
-  let r := framenum true true fuel v spf fo nf value fs fe in r = EDomain \/ r = ERange.
+  let r := framenum_cur fuel v spf fo nf value fs fe in r = EDomain \/ r = ERange.
 Proof. exact frame_const_unknown_fixed. Qed.
+
+Theorem former_constant_answered : framenum_cur 20 (arr_of const_l) 2 0 4 (7#1) 0 0 = ERange.
+Proof. exact const_fixed. Qed.
 
 (* a finished run is independent of the fuel: the C loop has none *)
 Theorem fuel_irrelevant : forall fxp fxs v value s e f f', (f <= f')%nat ->
   get_index fxp fxs f v value s e <> OutOfFuel ->
   get_index fxp fxs f' v value s e = get_index fxp fxs f v value s e.
 Proof. exact get_index_fuel_mono. Qed.
+
+(* the model is the code: the statement skeletons of _GD_Extrapolate,
+   _GD_GetIndex and gd_framenum_subset64 regenerated from src/index.c are the
+   expected ones, and the two loop bodies assembled from the regenerated
+   conditions and formulas are step2 and step1 of the model *)
+Theorem source_shape :
+  ex_skeleton = ex_skeleton_expected /\ gi_skeleton = gi_skeleton_expected /\ fs_skeleton = fs_skeleton_expected /\
+  (forall v value dir s, step2_shape v value dir s = step2 v value dir s) /\
+  (forall v value fs fsv s, step1_shape v value fs fsv s = step1 cur_fxp cur_fxs v value fs fsv s).
+Proof. exact shape_ok. Qed.
+
+Theorem source_conditions : forall e,
+  (if fs_c2 e then fs_a0 e else fs_a1 e) = sample_start (ShapeEnv.e_spf e) (ShapeEnv.e_fo e) (ShapeEnv.e_fs e) /\
+  (if fs_c3 e then fs_a2 e else fs_a3 e) = sample_end (ShapeEnv.e_spf e) (ShapeEnv.e_nf e) (ShapeEnv.e_fe e) /\
+  fs_c4 e = (ShapeEnv.e_fe e - ShapeEnv.e_fs e <? 2).
+Proof. exact fs_shape. Qed.
